@@ -1218,4 +1218,61 @@ mut(
 """,
 )
 
+# ------------------------------------------------------------------------------ C01
+DUF = "cdd/shared/docstring_utils.py"
+mut(
+    "c01-negative-int-as-float-again",
+    "C01",
+    "C01.numeric",
+    "cdd/shared/defaults_utils.py",
+    '    elif (default[1:] if default[:1] in frozenset(("-", "+")) else default).isdecimal():\n',
+    "    elif default.isdecimal():\n",
+)
+mut(
+    "c01-float-before-int",
+    "C01",
+    "C01.numeric",
+    "cdd/shared/defaults_utils.py",
+    """    elif (default[1:] if default[:1] in frozenset(("-", "+")) else default).isdecimal():
+        default = int(default)
+    elif default in frozenset(("True", "False")):
+        default = literal_eval(default)
+    else:
+        with suppress(ValueError):
+            default = float(default)
+""",
+    """    elif default in frozenset(("True", "False")):
+        default = literal_eval(default)
+    else:
+        with suppress(ValueError):
+            default = float(default)
+        if isinstance(default, str) and (default[1:] if default[:1] in frozenset(("-", "+")) else default).isdecimal():
+            default = int(default)
+""",
+)
+mut(
+    "c01-rest-token-removed-from-table",
+    "C01",
+    "C01.tokens",
+    DUF,
+    '    (":param", ":cvar", ":ivar", ":var", ":type", ":raises", ":return", ":rtype"),\n',
+    '    (":param", ":cvar", ":ivar", ":var", ":type", ":raises", ":returns", ":rtype"),\n',
+)
+mut(
+    "c01-google-token-shadowed-by-rest",
+    "C01",
+    "C01.precedence",
+    DUF,
+    '    ("Args:", "Kwargs:", "Raises:", "Returns:"),\n',
+    '    ("Args:", "Kwargs:", "Raises:", ":return Returns:"),\n',
+)
+mut(
+    "c01-announce-changed",
+    "C01",
+    "C01.announce",
+    "cdd/shared/defaults_utils.py",
+    '            _param["doc"] = "{doc} Defaults to {default}".format(',
+    '            _param["doc"] = "{doc} Default = {default}".format(',
+)
+
 MUTANTS = M
